@@ -45,6 +45,13 @@ PROPS = {
         assumptions=["monotonicity is proved for fully turbulent (k_lam = 0) and fully laminar (k_lam = 1) sections; "
                      "mixed laminar fractions are examined numerically by the oracle only"],
     ),
+    "C03": dict(
+        components=["MomentCoefficient", "VortexMesh", "ViscousDrag", "WaveDrag", "LoadTransfer", "Taper", "ScaleX", "Rotate", "Stretch",
+                    "StructWeightLoads", "Horseshoe", "VonMisesTube", "VLMGeometry"],
+        history_components="ALL",
+        assumptions=["the framework protocol: compute(x) precedes compute_partials/linearize at x (OpenMDAO's run_model -> compute_totals)",
+                     "the accumulation-site scan is syntactic (augmented assignments on partials/outputs/inputs/self and on local views of them)"],
+    ),
     "C05": dict(
         components=["CollocationPoints", "VortexMesh", "EvalVelMtx", "Horseshoe", "VLMGeometry"],
         extra_suites=[suites.aero_pipeline_suite],
@@ -83,7 +90,10 @@ PROPS = {
         assumptions=["order-independence of the solved forces is tied by the oracle (permutation theorem not proved); mphys wrapper groups are compared by the oracle when mphys is importable"],
     ),
 }
+from .specs import SPECS as _SPECS
 for k, v in PROPS.items():
+    if v.get("history_components") == "ALL":
+        v["history_components"] = sorted(_SPECS)
     v["theorems"] = THEOREMS.get(k, {}).get("theorems", [])
     v["modules"] = THEOREMS.get(k, {}).get("modules", ["OASProofs.Props." + k])
     v["generated"] = THEOREMS.get(k, {}).get("generated", [])
